@@ -20,6 +20,7 @@ DECIDES = (
     "get_index_from_side, set_patch, patch_names, project_side (edges and points), project_corner, get_face and Side select exactly "
     "the corners/edges of that side in the blockMesh hexahedron convention (C10.SIDE-ADDRESSING); the polarity of the three "
     "nearest/most-aligned selections (C10.SELECT-POLARITY)."
+    ' face permutations are history-independent: the same calls on a second face in the same abstract process give the result of a fresh one (class-level state rotated in place is reported); set_patch with lists of several sides in different orders sets exactly the listed sides.'
 )
 NOT_DECIDED = "which corner is geometrically 'closest' for degenerate distances; face normals (geometry)."
 ASSUMPTIONS = ["corner k of an operation is bottom_face.points[k] for k<4 and top_face.points[k-4] otherwise (checked against Operation.points)"]
